@@ -105,40 +105,36 @@ def min_cost_flow[Node](
     demand: int,
 ) -> Result:
     """Route demand units from source to sink at minimum total cost."""
-    capacity = defaultdict(lambda: defaultdict(int))
-    cost = defaultdict(lambda: defaultdict(lambda: float("inf")))
-    nodes = set()
+    # Residual network as an edge list: input arc k is edge 2k, its reverse is edge 2k + 1 (= 2k ^ 1),
+    # so parallel and anti-parallel arcs each keep their own capacity and cost.
+    nodes = {source, sink}
+    tails, heads, residual, cost = [], [], [], []
 
     for u in graph:
         nodes.add(u)
         for v, cap, c in graph[u]:
             nodes.add(v)
-            capacity[u][v] += cap
-            cost[u][v] = min(cost[u][v], c)
-            if cost[v][u] == float("inf"):
-                cost[v][u] = -c
+            tails += [u, v]
+            heads += [v, u]
+            residual += [cap, 0]
+            cost += [c, -c]
 
-    flow = defaultdict(lambda: defaultdict(int))
     total_cost = 0
     total_flow = 0
     iterations = 0
 
     def bellman_ford():
         dist = {n: float("inf") for n in nodes}
-        parent = {n: None for n in nodes}
+        parent = {n: None for n in nodes}  # residual edge used to reach n
         dist[source] = 0
 
         for _ in range(len(nodes) - 1):
             updated = False
-            for u in nodes:
-                if dist[u] == float("inf"):
-                    continue
-                for v in nodes:
-                    residual = capacity[u][v] - flow[u][v] + flow[v][u]
-                    if residual > 0 and dist[u] + cost[u][v] < dist[v]:
-                        dist[v] = dist[u] + cost[u][v]
-                        parent[v] = u
-                        updated = True
+            for e, (u, v) in enumerate(zip(tails, heads)):
+                if residual[e] > 0 and dist[u] + cost[e] < dist[v]:
+                    dist[v] = dist[u] + cost[e]
+                    parent[v] = e
+                    updated = True
             if not updated:
                 break
 
@@ -147,9 +143,9 @@ def min_cost_flow[Node](
 
         path = []
         node = sink
-        while node is not None:
-            path.append(node)
-            node = parent[node]
+        while parent[node] is not None:
+            path.append(parent[node])
+            node = tails[parent[node]]
         path.reverse()
 
         return path, dist[sink]
@@ -161,25 +157,22 @@ def min_cost_flow[Node](
             return Result({}, float("inf"), iterations, iterations, Status.INFEASIBLE)
 
         path_flow = demand - total_flow
-        for u, v in zip(path, path[1:]):
-            residual = capacity[u][v] - flow[u][v] + flow[v][u]
-            path_flow = min(path_flow, residual)
+        for e in path:
+            path_flow = min(path_flow, residual[e])
 
-        for u, v in zip(path, path[1:]):
-            if flow[v][u] > 0:
-                reduce = min(path_flow, flow[v][u])
-                flow[v][u] -= reduce
-                remaining = path_flow - reduce
-                flow[u][v] += remaining
-                total_cost += cost[u][v] * remaining - cost[v][u] * reduce
-            else:
-                flow[u][v] += path_flow
-                total_cost += cost[u][v] * path_flow
+        for e in path:
+            residual[e] -= path_flow
+            residual[e ^ 1] += path_flow
+            total_cost += cost[e] * path_flow
 
         total_flow += path_flow
 
-    flows = {(u, v): flow[u][v] for u in flow for v in flow[u] if flow[u][v] > 0}
-    return Result(flows, total_cost, iterations, iterations)
+    # Flow on input arc k is the residual of its reverse edge; report it per (u, v) pair
+    flows = defaultdict(int)
+    for e in range(0, len(tails), 2):
+        if residual[e ^ 1] > 0:
+            flows[tails[e], heads[e]] += residual[e ^ 1]
+    return Result(dict(flows), total_cost, iterations, iterations)
 
 
 def solve_assignment(
